@@ -77,7 +77,11 @@ type Exec struct {
 }
 
 func NewExec(d Driver, cfg Config) *Exec {
-	e := &Exec{Cfg: cfg, M: NewModel(), cur: map[int]int{}, delta: map[int][]Rx{}, nextReq: 100, Labels: map[string]int{}, lat: map[int]*latRun{}, applied: map[int]map[int32]int{}, unsubAt: map[*MSession]map[uint32]bool{}}
+	base := cfg.ReqBase
+	if base == 0 {
+		base = 100
+	}
+	e := &Exec{Cfg: cfg, M: NewModel(), cur: map[int]int{}, delta: map[int][]Rx{}, nextReq: base, Labels: map[string]int{}, lat: map[int]*latRun{}, applied: map[int]map[int32]int{}, unsubAt: map[*MSession]map[uint32]bool{}}
 	e.Rec = newRecDriver(d, &e.traceStep)
 	e.Rec.onSend = func(int) { e.sentAt = time.Now() }
 	e.D = e.Rec
@@ -91,7 +95,7 @@ func (e *Exec) fail(tags string, format string, a ...any) {
 func (e *Exec) label(l string) { e.Labels[l]++ }
 
 func (e *Exec) reqTS() *timestamppb.Timestamp {
-	return &timestamppb.Timestamp{Seconds: 1700000000 + int64(e.stepIdx), Nanos: int32(e.nextReq)}
+	return &timestamppb.Timestamp{Seconds: 1700000000 + int64(e.stepIdx), Nanos: int32(e.nextReq % 1000000000)}
 }
 
 func sameTS(a, b *timestamppb.Timestamp) bool {
